@@ -152,10 +152,6 @@ package geom
 //@   ensures (p.full ==> XYFin(p.coords.XY)) ==> EnvOK(result)
 //@   ensures p.full ==> same(result.min, p.coords.XY) && same(result.max, p.coords.XY)
 
-//@ func LineString.Envelope
-//@   ensures result.nonEmpty <==> len(s.seq.floats) > 0
-//@   ensures SeqFin(s.seq) ==> EnvOK(result) && (result.nonEmpty ==> SeqInEnv(result, s.seq) && SeqTouches(result, s.seq))
-
 //@ pred PtFin(p) = p.full ==> XYFin(p.coords.XY)
 //@ pred MPFin(m) = forall k :: 0 <= k && k < len(m.points) ==> PtFin(m.points[k])
 //@ func MultiPoint.Envelope
@@ -169,3 +165,71 @@ package geom
 //@   loop 0 invariant MPFin(m) ==> (env.nonEmpty <==> (exists k :: 0 <= k && k <= rangeindex && m.points[k].full))
 //@   loop 0 invariant MPFin(m) ==> (forall k :: 0 <= k && k <= rangeindex && m.points[k].full ==> InEnv(env, m.points[k].coords.XY))
 //@   loop 0 invariant MPFin(m) ==> (env.nonEmpty ==> (exists k :: 0 <= k && k <= rangeindex && m.points[k].full && env.min.X == m.points[k].coords.X) && (exists k :: 0 <= k && k <= rangeindex && m.points[k].full && env.max.X == m.points[k].coords.X) && (exists k :: 0 <= k && k <= rangeindex && m.points[k].full && env.min.Y == m.points[k].coords.Y) && (exists k :: 0 <= k && k <= rangeindex && m.points[k].full && env.max.Y == m.points[k].coords.Y))
+
+// ---- envelopes of composite geometries: the join over the members ----
+// GE/LE/PE name the envelope of a member by an uninterpreted function of the
+// member value (at the current heap version); the functions are deterministic.
+
+//@ pred GE(g) = ufn(genv, Envelope, g)
+//@ pred LE(l) = ufn(lsenv, Envelope, l)
+//@ pred PE(p) = ufn(polyenv, Envelope, p)
+
+//@ func Geometry.Envelope
+//@   defines same(result, GE(g))
+//@ func LineString.Envelope
+//@   defines same(result, LE(s))
+//@   ensures result.nonEmpty <==> len(s.seq.floats) > 0
+//@   ensures SeqFin(s.seq) ==> EnvOK(result) && (result.nonEmpty ==> SeqInEnv(result, s.seq) && SeqTouches(result, s.seq))
+//@ func Polygon.Envelope
+//@   defines same(result, PE(p))
+//@   ensures len(p.rings) == 0 ==> !result.nonEmpty
+//@   ensures len(p.rings) > 0 ==> same(result, LE(p.rings[0]))
+
+//@ func GeometryCollection.Envelope
+//@   mode order
+//@   ensures (forall k :: 0 <= k && k < len(c.geoms) ==> EnvOK(GE(c.geoms[k]))) ==> EnvOK(result) && (result.nonEmpty <==> (exists k :: 0 <= k && k < len(c.geoms) && GE(c.geoms[k]).nonEmpty)) && (forall k :: 0 <= k && k < len(c.geoms) && GE(c.geoms[k]).nonEmpty ==> EnvCovers(result, GE(c.geoms[k])))
+//@   ensures (forall k :: 0 <= k && k < len(c.geoms) ==> EnvOK(GE(c.geoms[k]))) && result.nonEmpty ==> (exists k :: 0 <= k && k < len(c.geoms) && GE(c.geoms[k]).nonEmpty && result.min.X == GE(c.geoms[k]).min.X) && (exists k :: 0 <= k && k < len(c.geoms) && GE(c.geoms[k]).nonEmpty && result.min.Y == GE(c.geoms[k]).min.Y) && (exists k :: 0 <= k && k < len(c.geoms) && GE(c.geoms[k]).nonEmpty && result.max.X == GE(c.geoms[k]).max.X) && (exists k :: 0 <= k && k < len(c.geoms) && GE(c.geoms[k]).nonEmpty && result.max.Y == GE(c.geoms[k]).max.Y)
+//@   loop 0 invariant -1 <= rangeindex && rangeindex < len(c.geoms)
+//@   loop 0 invariant (forall k :: 0 <= k && k < len(c.geoms) ==> EnvOK(GE(c.geoms[k]))) ==> EnvOK(env) && (env.nonEmpty <==> (exists k :: 0 <= k && k <= rangeindex && GE(c.geoms[k]).nonEmpty)) && (forall k :: 0 <= k && k <= rangeindex && GE(c.geoms[k]).nonEmpty ==> EnvCovers(env, GE(c.geoms[k])))
+//@   loop 0 invariant (forall k :: 0 <= k && k < len(c.geoms) ==> EnvOK(GE(c.geoms[k]))) && env.nonEmpty ==> (exists k :: 0 <= k && k <= rangeindex && GE(c.geoms[k]).nonEmpty && env.min.X == GE(c.geoms[k]).min.X) && (exists k :: 0 <= k && k <= rangeindex && GE(c.geoms[k]).nonEmpty && env.min.Y == GE(c.geoms[k]).min.Y) && (exists k :: 0 <= k && k <= rangeindex && GE(c.geoms[k]).nonEmpty && env.max.X == GE(c.geoms[k]).max.X) && (exists k :: 0 <= k && k <= rangeindex && GE(c.geoms[k]).nonEmpty && env.max.Y == GE(c.geoms[k]).max.Y)
+
+//@ func MultiLineString.Envelope
+//@   mode order
+//@   ensures (forall k :: 0 <= k && k < len(m.lines) ==> EnvOK(LE(m.lines[k]))) ==> EnvOK(result) && (result.nonEmpty <==> (exists k :: 0 <= k && k < len(m.lines) && LE(m.lines[k]).nonEmpty)) && (forall k :: 0 <= k && k < len(m.lines) && LE(m.lines[k]).nonEmpty ==> EnvCovers(result, LE(m.lines[k])))
+//@   ensures (forall k :: 0 <= k && k < len(m.lines) ==> EnvOK(LE(m.lines[k]))) && result.nonEmpty ==> (exists k :: 0 <= k && k < len(m.lines) && LE(m.lines[k]).nonEmpty && result.min.X == LE(m.lines[k]).min.X) && (exists k :: 0 <= k && k < len(m.lines) && LE(m.lines[k]).nonEmpty && result.min.Y == LE(m.lines[k]).min.Y) && (exists k :: 0 <= k && k < len(m.lines) && LE(m.lines[k]).nonEmpty && result.max.X == LE(m.lines[k]).max.X) && (exists k :: 0 <= k && k < len(m.lines) && LE(m.lines[k]).nonEmpty && result.max.Y == LE(m.lines[k]).max.Y)
+//@   loop 0 invariant -1 <= rangeindex && rangeindex < len(m.lines)
+//@   loop 0 invariant (forall k :: 0 <= k && k < len(m.lines) ==> EnvOK(LE(m.lines[k]))) ==> EnvOK(env) && (env.nonEmpty <==> (exists k :: 0 <= k && k <= rangeindex && LE(m.lines[k]).nonEmpty)) && (forall k :: 0 <= k && k <= rangeindex && LE(m.lines[k]).nonEmpty ==> EnvCovers(env, LE(m.lines[k])))
+//@   loop 0 invariant (forall k :: 0 <= k && k < len(m.lines) ==> EnvOK(LE(m.lines[k]))) && env.nonEmpty ==> (exists k :: 0 <= k && k <= rangeindex && LE(m.lines[k]).nonEmpty && env.min.X == LE(m.lines[k]).min.X) && (exists k :: 0 <= k && k <= rangeindex && LE(m.lines[k]).nonEmpty && env.min.Y == LE(m.lines[k]).min.Y) && (exists k :: 0 <= k && k <= rangeindex && LE(m.lines[k]).nonEmpty && env.max.X == LE(m.lines[k]).max.X) && (exists k :: 0 <= k && k <= rangeindex && LE(m.lines[k]).nonEmpty && env.max.Y == LE(m.lines[k]).max.Y)
+
+//@ func MultiPolygon.Envelope
+//@   mode order
+//@   ensures (forall k :: 0 <= k && k < len(m.polys) ==> EnvOK(PE(m.polys[k]))) ==> EnvOK(result) && (result.nonEmpty <==> (exists k :: 0 <= k && k < len(m.polys) && PE(m.polys[k]).nonEmpty)) && (forall k :: 0 <= k && k < len(m.polys) && PE(m.polys[k]).nonEmpty ==> EnvCovers(result, PE(m.polys[k])))
+//@   ensures (forall k :: 0 <= k && k < len(m.polys) ==> EnvOK(PE(m.polys[k]))) && result.nonEmpty ==> (exists k :: 0 <= k && k < len(m.polys) && PE(m.polys[k]).nonEmpty && result.min.X == PE(m.polys[k]).min.X) && (exists k :: 0 <= k && k < len(m.polys) && PE(m.polys[k]).nonEmpty && result.min.Y == PE(m.polys[k]).min.Y) && (exists k :: 0 <= k && k < len(m.polys) && PE(m.polys[k]).nonEmpty && result.max.X == PE(m.polys[k]).max.X) && (exists k :: 0 <= k && k < len(m.polys) && PE(m.polys[k]).nonEmpty && result.max.Y == PE(m.polys[k]).max.Y)
+//@   loop 0 invariant -1 <= rangeindex && rangeindex < len(m.polys)
+//@   loop 0 invariant (forall k :: 0 <= k && k < len(m.polys) ==> EnvOK(PE(m.polys[k]))) ==> EnvOK(env) && (env.nonEmpty <==> (exists k :: 0 <= k && k <= rangeindex && PE(m.polys[k]).nonEmpty)) && (forall k :: 0 <= k && k <= rangeindex && PE(m.polys[k]).nonEmpty ==> EnvCovers(env, PE(m.polys[k])))
+//@   loop 0 invariant (forall k :: 0 <= k && k < len(m.polys) ==> EnvOK(PE(m.polys[k]))) && env.nonEmpty ==> (exists k :: 0 <= k && k <= rangeindex && PE(m.polys[k]).nonEmpty && env.min.X == PE(m.polys[k]).min.X) && (exists k :: 0 <= k && k <= rangeindex && PE(m.polys[k]).nonEmpty && env.min.Y == PE(m.polys[k]).min.Y) && (exists k :: 0 <= k && k <= rangeindex && PE(m.polys[k]).nonEmpty && env.max.X == PE(m.polys[k]).max.X) && (exists k :: 0 <= k && k <= rangeindex && PE(m.polys[k]).nonEmpty && env.max.Y == PE(m.polys[k]).max.Y)
+
+// ---- envelopes rendered as geometries ----
+//@ func Envelope.BoundingDiagonal
+//@   requires EnvOK(e)
+//@   ensures !e.nonEmpty ==> result.ptr == nil && result.gtype == 0
+//@   ensures e.nonEmpty && e.min == e.max ==> result.gtype == 1 && deref(result.ptr, Point).full && deref(result.ptr, Point).coords.Type == 0 && same(deref(result.ptr, Point).coords.XY, e.min)
+//@   ensures e.nonEmpty && !(e.min == e.max) ==> result.gtype == 2 && deref(result.ptr, LineString).seq.ctype == 0 && len(deref(result.ptr, LineString).seq.floats) == 4
+//@   ensures e.nonEmpty && !(e.min == e.max) ==> same(deref(result.ptr, LineString).seq.floats[0], e.min.X) && same(deref(result.ptr, LineString).seq.floats[1], e.min.Y) && same(deref(result.ptr, LineString).seq.floats[2], e.max.X) && same(deref(result.ptr, LineString).seq.floats[3], e.max.Y)
+
+//@ func Envelope.AsGeometry
+//@   requires EnvOK(e)
+//@   ensures !e.nonEmpty ==> result.ptr == nil && result.gtype == 0
+//@   ensures e.nonEmpty && e.min == e.max ==> result.gtype == 1 && deref(result.ptr, Point).full && deref(result.ptr, Point).coords.Type == 0 && same(deref(result.ptr, Point).coords.XY, e.min)
+//@   ensures e.nonEmpty && !(e.min == e.max) && (e.min.X == e.max.X || e.min.Y == e.max.Y) ==> result.gtype == 2 && deref(result.ptr, LineString).seq.ctype == 0 && len(deref(result.ptr, LineString).seq.floats) == 4
+//@   ensures e.nonEmpty && e.min.X < e.max.X && e.min.Y < e.max.Y ==> result.gtype == 3 && len(deref(result.ptr, Polygon).rings) == 1 && deref(result.ptr, Polygon).ctype == 0
+
+//@ func Envelope.Min
+//@   ensures result.full <==> e.nonEmpty
+//@   ensures e.nonEmpty ==> same(result.coords.XY, e.min) && result.coords.Type == 0
+//@ func Envelope.Max
+//@   ensures result.full <==> e.nonEmpty
+//@   ensures e.nonEmpty ==> same(result.coords.XY, e.max) && result.coords.Type == 0
+//@ func Envelope.Center
+//@   ensures result.full <==> e.nonEmpty
+//@   ensures result.coords.Type == 0
